@@ -416,7 +416,15 @@ void DocumentBuilder::process(const char* name)
 
 void DocumentBuilder::process_list_end() {}
 
-void DocumentBuilder::done() {}
+void DocumentBuilder::done()
+{
+    // A dynamic template that is declared but never defined is a timed automaton without locations.
+    for (const template_t* templ : document.get_dynamic_templates()) {
+        if (!templ->is_defined)
+            document.add_error(templ->uid.get_position(), "Template is only declared - not defined",
+                               templ->uid.get_name());
+    }
+}
 
 void DocumentBuilder::before_update()
 {
